@@ -84,35 +84,38 @@ func c14Registry(p *Prog, r *Report) {
 					return
 				}
 				sites++
-				if fn != recv {
+				if !onlyCalledFrom(p, fn, recv, 3) {
 					bad = append(bad, p.Pos(c.Pos())+": client registered for events outside the frame handler ("+fn.Name()+")")
 					return
 				}
-				// argument: the receiving connection
+				// argument: the receiving connection (the receiver of the client method)
 				okArg := false
 				for _, a := range c.Common().Args {
-					if a == ssa.Value(recv.Params[0]) {
+					if len(fn.Params) > 0 && a == ssa.Value(fn.Params[0]) && recvNamed(fn) == cr.cl {
 						okArg = true
 					}
 				}
 				if !okArg {
 					bad = append(bad, p.Pos(c.Pos())+": a connection other than the one that sent REGISTER is registered")
 				}
-				inRegister, schemaTest := false, false
-				for _, ct := range dominatingConds(c.Block()) {
+				inRegister := guardHolds(p, c.Block(), func(ct condTruth) bool {
 					if ex, ok := ct.Cond.(*ssa.Extract); ok && ct.Truth {
 						if ta, ok := ex.Tuple.(*ssa.TypeAssert); ok && typeIs(ta.AssertedType, "message", "Register") {
-							inRegister = true
+							return true
 						}
 					}
+					return false
+				}, 3)
+				schemaTest := guardHolds(p, c.Block(), func(ct condTruth) bool {
 					if bo, ok := ct.Cond.(*ssa.BinOp); ok && bo.Op == token.EQL && ct.Truth {
 						for _, side := range []ssa.Value{bo.X, bo.Y} {
 							if k, ok := side.(*ssa.Const); ok && k.Value != nil && k.Value.Kind() == constant.String && k.Value.ExactString() == schema {
-								schemaTest = true
+								return true
 							}
 						}
 					}
-				}
+					return false
+				}, 3)
 				if !inRegister {
 					bad = append(bad, p.Pos(c.Pos())+": registration outside the REGISTER arm")
 				}
@@ -412,6 +415,56 @@ func c14ClusterDispatch(p *Prog, r *Report, rule string) {
 				problems = append(problems, p.Pos(c.Pos())+": listeners are not given the received schema-change message")
 			}
 		})
+		// alternatively the arm calls a Cluster helper that ranges over the listeners and
+		// invokes OnEvent on each with its argument (sendEvent)
+		if notified == 0 {
+			eachCall(fn, func(c ssa.CallInstruction) {
+				callee := c.Common().StaticCallee()
+				if callee == nil || recvNamed(callee) != cl || okV == nil || !guardedBy(c.Block(), okV, true) {
+					return
+				}
+				// helper: for each element of c.listeners: elem.OnEvent(param)
+				fans := false
+				eachCall(callee, func(hc ssa.CallInstruction) {
+					hm := hc.Common()
+					if !hm.IsInvoke() || hm.Method.Name() != "OnEvent" || !recvNamedIs(hm.Method, "proxycore", "ClusterListener") {
+						return
+					}
+					if ld, ok := hm.Value.(*ssa.UnOp); ok {
+						if ia, ok := ld.X.(*ssa.IndexAddr); ok {
+							if f, _ := loadedField(ia.X); f == lsF {
+								if add, ok := ia.Index.(*ssa.BinOp); ok && add.Op == token.ADD {
+									if phi, ok := add.X.(*ssa.Phi); ok && phi.Comment == "rangeindex" {
+										if _, isPar := hm.Args[0].(*ssa.Parameter); isPar {
+											fans = true
+										}
+									}
+								}
+							}
+						}
+					}
+				})
+				if !fans {
+					return
+				}
+				// the argument is &SchemaChangeEvent{Message: msg}
+				for _, a := range c.Common().Args {
+					for _, o := range origins(a) {
+						if al, ok := o.(*ssa.Alloc); ok && typeIs(al.Type(), "proxycore", "SchemaChangeEvent") {
+							for _, ref := range *al.Referrers() {
+								if fa, ok := ref.(*ssa.FieldAddr); ok && fieldOfAddr(fa).Name() == "Message" {
+									for _, rr := range *fa.Referrers() {
+										if st, ok := rr.(*ssa.Store); ok && st.Val == msgV {
+											notified++
+										}
+									}
+								}
+							}
+						}
+					}
+				}
+			})
+		}
 		if notified != 1 {
 			problems = append(problems, fmt.Sprintf("%d notification sites in the SchemaChangeEvent arm (one per listener expected)", notified))
 		}
@@ -516,7 +569,7 @@ func c14Subscription(p *Prog, r *Report) {
 		if cm.IsInvoke() && cm.Method.Name() == "OnEvent" && recvNamedIs(cm.Method, "proxycore", "EventHandler") {
 			return []string{"handler"}
 		}
-		if callIsMethod(call, "proxycore", "pendingRequests", "loadAndDelete") {
+		if callee != nil && callee == getPendingRoles(p).loadAndDelete {
 			return []string{"pending"}
 		}
 		return nil
